@@ -37,9 +37,12 @@ def strategy(max_ops):
     at_feature = st.tuples(st.just('at_feature'), st.integers(0, 10 ** 6), st.sampled_from([-1, 0, 0, 1]), st.sampled_from(['start', 'end', 'mid']), qstrand)
     between = st.tuples(st.just('between'), qcontig, qcoord, st.integers(0, 80), qstrand)
     read = st.tuples(st.just('read'), qcontig, st.integers(0, 460), cig, qstrand, st.sampled_from([0, 1]))
+    # a read whose deletion / intron (1..3 bases) lies exactly on the start of an existing feature
+    read_gap = st.tuples(st.just('read_gap'), st.integers(0, 10 ** 6), st.integers(1, 20), st.integers(1, 3), st.sampled_from('DN'),
+                         st.integers(1, 20), qstrand, st.sampled_from([0, 1]))
     between_feature = st.tuples(st.just('between_feature'), st.integers(0, 10 ** 6), st.integers(-3, 3), st.integers(0, 40), qstrand)
     adds = st.lists(st.one_of(add, add, add, nested, dup), min_size=1, max_size=max(2, max_ops // 6))
-    queries = st.lists(st.one_of(at, at_feature, at_feature, at_feature, between, between_feature, read), min_size=1,
+    queries = st.lists(st.one_of(at, at_feature, at_feature, at_feature, between, between_feature, read, read_gap), min_size=1,
                        max_size=max(2, max_ops // 6))
     # a history is a sequence of rounds add* [sort] query*; the explicit sort is usually present (the listed
     # histories), sometimes omitted (lazy re-index) and sometimes repeated
@@ -165,9 +168,19 @@ def eval_history(case):
                 got = fc.findFeaturesBetween(c, a, a + ln, strand)
                 exp = scan_between(model, c, a, a + ln, strand)
                 judge('between', got, exp, c, '(%s,%d,%d,%r)' % (c, a, a + ln, strand))
-            elif k == 'read':
+            elif k in ('read', 'read_gap'):
                 in_add_round = False
-                _, c, pos, cig, strand, method = op
+                if k == 'read_gap':
+                    if not all_feats:
+                        continue
+                    _, fi, a_len, g_len, g_op, b_len, strand, method = op
+                    c, f = all_feats[fi % len(all_feats)]
+                    pos = f[0] - a_len
+                    if pos < 0:
+                        continue
+                    cig = [('M', a_len), (g_op, g_len), ('M', b_len)]
+                else:
+                    _, c, pos, cig, strand, method = op
                 cig = [tuple(x) for x in cig]
                 # normalise the CIGAR: S only at the ends, must contain an M, no leading/trailing D/N/I
                 core = [(o, n) for o, n in cig if o != 'S']
